@@ -893,6 +893,9 @@ func isSentinel(o *types.Var) bool {
 	if o.Pkg() == nil || o.Parent() != o.Pkg().Scope() {
 		return false
 	}
+	if o.Pkg().Path() == "net/http" && o.Name() == "NoBody" {
+		return true
+	}
 	return types.TypeString(o.Type(), nil) == "error"
 }
 
@@ -901,6 +904,11 @@ func (u *Unit) sentinel(st *State, o *types.Var) *Val {
 	c := u.d.constant("sentinel!"+o.Pkg().Path()+"."+o.Name(), SInt)
 	u.sentinels[c] = true
 	u.d.axiom(app(">", c, "0"))
+	u.d.axiom(app("<=", c, "|wm@0|")) // created at package initialisation: older than anything the unit allocates
+	if kindOf(o.Type()) != kRef {
+		// http.NoBody: a struct value only ever used through interfaces
+		return &Val{T: types.NewInterfaceType(nil, nil), S: c}
+	}
 	return &Val{T: o.Type(), S: c}
 }
 
